@@ -8,5 +8,7 @@ let () = Driver.main [
   { Driver.name = "e2e_stream_c12"; run = e2e_run; judge = e2e_stream_judge_c12 };
   { Driver.name = "e2e_amp"; run = e2e_run; judge = e2e_amp_judge };
   { Driver.name = "e2e_pn"; run = e2e_run; judge = e2e_pn_judge };
+  { Driver.name = "e2e_cid"; run = e2e_run; judge = e2e_cid_judge };
+  { Driver.name = "e2e_cc"; run = e2e_run; judge = e2e_cc_judge };
   { Driver.name = "e2e_inject"; run = e2e_run; judge = e2e_inject_judge };
 ]
